@@ -73,6 +73,15 @@ func genParse(g *G, repo string, n int, out io.Writer) {
 		for k := range base.Validations {
 			base.Validations[k].Level = []string{"violation", "warning", "info"}[g.n(3)]
 		}
+		if i%4 == 1 {
+			// names YAML reads as numbers, booleans, null or dates when a key is written plain: Get compares the text
+			off := g.n(len(typedNames))
+			for k := range base.Validations {
+				if k < len(typedNames) {
+					base.Validations[k].Name = typedNames[(off+k)%len(typedNames)]
+				}
+			}
+		}
 		spec := ProfileSpec{Name: fmt.Sprintf("parse %d", i), Atoms: base.Atoms, Paths: base.Paths, Validations: base.Validations}
 		if g.coin(0.3) {
 			spec.Dangling = map[string][]string{g.pick([]string{"violation", "warning", "info"}): {"ghost"}, g.pick([]string{"violation", "warning", "info"}): {"removed-rule", "v0"}}
